@@ -158,6 +158,10 @@ func alphabetNested() []m.Op {
 		{K: "updateFunc", Q: &m.Q{Coll: "a", Crit: m.Leaf("gte", "n.a", int64(1)), Sort: sortBy("n.a", -1)}, Upd: &m.Updater{Set: setMap("n.a", int64(0)), Style: "inplace"}},
 		{K: "replaceById", Coll: "a", Id: u1, Docs: []m.Doc{doc(u1, "n.a", int64(2))}},
 		{K: "deleteById", Coll: "a", Id: u2}, {K: "delete", Q: qOn("a", m.Leaf("eq", "n.a", int64(4)))},
+		// an indexed field holding a slice, rewritten element by element inside the document the updater receives
+		updID("a", u3, "copy", "n", []interface{}{int64(1), map[string]interface{}{"k": int64(1)}}),
+		updID("a", u3, "inplace-elems", "n", []interface{}{int64(7), map[string]interface{}{"k": int64(2)}}),
+		{K: "updateFunc", Q: qOn("a", m.Leaf("gt", "n", int64(5))), Upd: &m.Updater{Set: setMap("n", []interface{}{int64(8), map[string]interface{}{"k": int64(1)}}), Style: "inplace-elems"}},
 	}
 }
 
